@@ -211,7 +211,7 @@ def run_c09(params, prefix):
                      dict(params=params, what=what, **kw)))
 
     calls = tuple(store.calls)
-    out['order'] = hash(calls)
+    out['order'] = explore.canon_order(calls)
     inflight = getattr(repo.backend, 'max_inflight', 0) if repo else 0
     out['inflight'] = inflight
     if x.err is not None:
@@ -402,7 +402,9 @@ def main():
         'traces_validated_against_impl': tot.executions,
         'evaluations': tot.executions, 'distinct_nontrivial': len(tot.orders),
         'rule': 'every execution of each harness with <= bound deviations from the default schedule; '
-                'distinct = distinct backend call orders; state = (per-participant step vector, backend log position)',
+                'every execution is a distinct schedule by construction; distinct_nontrivial counts the distinct backend call '
+                'orders they produce (snapshot names canonicalised, so the count does not depend on which worker process ran an '
+                'execution); state = (per-participant step vector, backend log position)',
         'executions_by_deviations': {str(k): v for k, v in sorted(tot.by_dev.items())},
         'scheduling_points_total': tot.total_points, 'max_points_per_execution': tot.max_points,
         'distinct_outcomes': len(tot.outcomes), 'max_inflight_seen': tot.max_inflight,
